@@ -39,10 +39,11 @@ func pool(t reflect.Type) []interface{} {
 	case reflect.TypeOf(P2{}):
 		return []interface{}{P2{1, 2}, P2{3, 4}, P2{1, 3}}
 	case reflect.TypeOf(&P2{}):
-		return []interface{}{p1, p2, p3}
+		return []interface{}{p1, p2, p3, (*P2)(nil)}
 	}
 	if t.Kind() == reflect.Interface {
-		return []interface{}{1, "a", P2{1, 2}, 2}
+		// the nil interface and typed nils are different values of an interface parameter
+		return []interface{}{1, "a", P2{1, 2}, 2, nil, (*P2)(nil), []int(nil)}
 	}
 	panic("no pool for " + t.String())
 }
@@ -93,6 +94,9 @@ func (p pat) String() string {
 
 func show(v interface{}) string {
 	if p, ok := v.(*P2); ok {
+		if p == nil {
+			return "(*P2)(nil)"
+		}
 		return fmt.Sprintf("&%v", *p)
 	}
 	return fmt.Sprintf("%#v", v)
@@ -377,7 +381,9 @@ func TestC04(t *testing.T) {
 			}
 			for i, a := range args {
 				v := reflect.New(typeAt(i)).Elem()
-				v.Set(reflect.ValueOf(a))
+				if a != nil {
+					v.Set(reflect.ValueOf(a))
+				}
 				in = append(in, v)
 			}
 			got, perr := 0, interface{}(nil)
